@@ -284,6 +284,9 @@ def run_property(prop_id, tier="quick", seed=0, jobs=None, only=None, write_evid
     bounded_out = []
     for hname, b in bounded:
         b = b or {}
+        if b.get("error") or not b.get("cases"):
+            # a stand-in that did not run (scenario crashed / explored nothing) must not look like a pass
+            errors.append((hname, {"type": "bounded_standin_did_not_run", "msg": str(b.get("error") or "explored zero cases")[-1500:]}))
         bounded_out.append({"unit": hname, **{k: v for k, v in b.items() if k != "failures"}})
         for fail in b.get("failures", []):
             k = match_known(known, hname, fail.get("signature", ""))
